@@ -97,7 +97,7 @@ func verifC20Coins() sdk.Coins {
 
 func Verif_C20_vesting_create_vesting_account() {
 	k, ctx := verifC20Ctx()
-	msg := &types.MsgCreateVestingAccount{FromAddress: verif_str_in("from", vAddrPool...), ToAddress: verif_str_in("to", vAddrPool...), Amount: verifC20Coins(),
+	msg := &types.MsgCreateVestingAccount{FromAddress: verif_str_in("from", vOwner, vOther, "notbech32"), ToAddress: verif_str_in("to", vOther, "c4e:recipient", ""), Amount: verifC20Coins(),
 		StartTime: verif_i64_range("startUnix", -5, 4000000000), EndTime: verif_i64_range("endUnix", -5, 4000000000)}
 	if msg.ValidateBasic() == nil {
 		_, _ = NewMsgServerImpl(k).CreateVestingAccount(sdk.WrapSDKContext(ctx), msg)
